@@ -12,6 +12,7 @@ import (
 	"encoding/pem"
 	"fmt"
 	"io"
+	"log"
 	"math/big"
 	"net"
 	"net/http"
@@ -159,6 +160,14 @@ func (l *countingListener) stats() (int, int) {
 	l.mu.Lock()
 	defer l.mu.Unlock()
 	return l.accepted, l.closed
+}
+
+func init() {
+	// the root package's loggers write to os.Stderr directly; answers go to files, not to the log
+	for _, l := range []*log.Logger{fingerproxy.ProxyServerLog, fingerproxy.HTTPServerLog, fingerproxy.PrometheusLog,
+		fingerproxy.ReverseProxyLog, fingerproxy.FingerprintLog, fingerproxy.CertWatcherLog, fingerproxy.DefaultLog} {
+		l.SetOutput(io.Discard)
+	}
 }
 
 var e2eTmpRoot = func() string {
